@@ -3,7 +3,8 @@
 From Coq Require Import String.
 From Coq Require Import List.
 From BFG Require Import Base.Chars Find.Glob Find.GlobProofs Find.Filter Find.FilterProofs Find.Walk Find.WalkProofs.
-From BFG Require Import Find.Bases Find.BasesProofs.
+From BFG Require Import Find.Bases Find.BasesProofs Find.BasesGlue.
+From BFG Require Path.PathAlg Path.PathAlgRt Path.PathAlgTrees.
 Local Open Scope N_scope.
 
 (* one component: the executable matcher used for every glob component and every NameGlob decides
@@ -185,6 +186,77 @@ Proof.
 Qed.
 Print Assumptions C11_nested_roots_duplicate_refuted.
 
+(* ---- glue C11 <- C12: the antichain hypothesis discharged for the roots _find_files chooses itself ----
+   FileFilter.bases() (Find/Bases.v: Path constructor PathAlg.mk + PathAlg.uniquetrees, observed as
+   [root.value, split(), directory]) returns an antichain for the below-relation, for EVERY filter: below on these
+   observations is the prefix relation on the sort keys (root value, split()) that path.uniquetrees compares, and
+   C12_uniquetrees_keys holds for all inputs.  No guard on the bases is needed (in particular not the exclusion of
+   the file-system root that C12_uniquetrees needs for its tree reading, see C11_bases_fsroot_tree_refuted). *)
+Theorem C11_bases_antichain : forall f bs, bases f = Some bs -> antichain bs.
+Proof. exact bases_antichain. Qed.
+Print Assumptions C11_bases_antichain.
+
+(* the roots are chosen among the include bases and cover them: every include base is, or lies below, a root *)
+Theorem C11_bases_cover : forall f bs, bases f = Some bs ->
+  (forall g, In g (f_inc f) -> exists q b, base_alg g = Some q /\ In b bs /\ below b (of_alg q)) /\
+  (forall b, In b bs -> exists g q, In g (f_inc f) /\ base_alg g = Some q /\ b = of_alg q).
+Proof. exact bases_cover. Qed.
+Print Assumptions C11_bases_cover.
+
+(* the no-duplicates statements without any antichain hypothesis: _find_files with the walk roots it computes from
+   the filter, over any file system whose listings have pairwise distinct names, reports no entry twice (compared
+   by root and components), for every pruning policy; in particular find_files returns no path twice *)
+Theorem C11_find_files_of_no_duplicates_keys : forall prune f fs r,
+  find_files_of prune f fs = Some r -> wf_fsys fs -> NoDup (map (fun e => pkey_of (fst e)) r).
+Proof. intros prune f fs r H Hw. exact (proj1 (find_files_of_no_duplicates prune f fs r H Hw)). Qed.
+Print Assumptions C11_find_files_of_no_duplicates_keys.
+
+Theorem C11_find_files_of_no_duplicates : forall f fs r,
+  find_files_of (prune_real f) f fs = Some r -> wf_fsys fs -> NoDup (found_of r).
+Proof. intros f fs r H Hw. exact (proj2 (find_files_of_no_duplicates (prune_real f) f fs r H Hw)). Qed.
+Print Assumptions C11_find_files_of_no_duplicates.
+
+(* the tree reading: for well-formed paths with plain roots other than the file-system root, below on the
+   observations is containment of directory trees (same root, component prefix) ... *)
+Theorem C11_below_is_tree_containment : forall u v,
+  PathAlgRt.wfp u -> PathAlgRt.wfp v -> PathAlgTrees.not_fsroot u -> PathAlgTrees.not_fsroot v ->
+  PathAlg.is_install (PathAlg.p_root u) = false -> PathAlg.is_install (PathAlg.p_root v) = false ->
+  (below (of_alg u) (of_alg v) <-> PathAlgTrees.under u v).
+Proof. exact below_iff_under. Qed.
+Print Assumptions C11_below_is_tree_containment.
+
+(* ... so under these guards on the include bases the walk roots are pairwise tree-disjoint and every include base
+   lies in the tree of a root (C12_uniquetrees transported to FileFilter.bases()) *)
+Theorem C11_bases_tree_antichain : forall f ps,
+  all_some (map base_alg (f_inc f)) = Some ps ->
+  (forall p, In p ps -> PathAlgRt.wfp p /\ PathAlgTrees.not_fsroot p) ->
+  bases f = Some (map of_alg (PathAlg.uniquetrees ps)) /\
+  (forall p, In p ps -> exists u, In u (PathAlg.uniquetrees ps) /\ PathAlgTrees.under u p) /\
+  ForallOrdPairs (fun u v => ~ PathAlgTrees.under u v /\ ~ PathAlgTrees.under v u) (PathAlg.uniquetrees ps).
+Proof. exact bases_tree_antichain. Qed.
+Print Assumptions C11_bases_tree_antichain.
+
+(* the guard not_fsroot is needed for the tree reading only: with the include bases / and /a (C12 finding
+   uniquetrees-filesystem-root; the split of / is two empty strings) both are kept as roots although /a lies in the
+   tree of / - while they still form an antichain for below, as C11_bases_antichain says.  (PathGlob cannot
+   construct the base / : finding absolute-root-level-glob; the filter below is written down directly.) *)
+Definition ex_fsroot : ffilter :=
+  mkfilter [mkpglob 3 [[]; []] [STR "*.c"] TFile; mkpglob 3 [[]; STR "a"] [STR "*.c"] TFile] [] [] None.
+Theorem C11_bases_fsroot_tree_refuted : exists f a b,
+  PathAlg.mk (STR "/") (PathAlg.RRoot PathAlg.Absolute) None (Some true) = Some a /\
+  PathAlg.mk (STR "/a") (PathAlg.RRoot PathAlg.Absolute) None (Some true) = Some b /\
+  all_some (map base_alg (f_inc f)) = Some [a; b] /\
+  bases f = Some [of_alg a; of_alg b] /\ PathAlgTrees.under a b /\ a <> b /\
+  ~ PathAlgTrees.not_fsroot a /\ antichain [of_alg a; of_alg b].
+Proof.
+  exists ex_fsroot. eexists. eexists. split; [vm_compute; reflexivity|]. split; [vm_compute; reflexivity|].
+  split; [vm_compute; reflexivity|]. split; [vm_compute; reflexivity|].
+  split; [split; [reflexivity|exists [STR "a"]; reflexivity]|].
+  split; [discriminate|]. split; [intros H; specialize (H eq_refl); discriminate H|].
+  apply (bases_antichain ex_fsroot). vm_compute. reflexivity.
+Qed.
+Print Assumptions C11_bases_fsroot_tree_refuted.
+
 (* ---- non-vacuity *)
 (* the roots the model of FileFilter.bases() (Path constructor + path.uniquetrees of the path-algebra model)
    chooses for a near-prefix family: src, src/sub and the sibling src-gen, whose name continues src with a
@@ -209,6 +281,29 @@ Example ex_family_found :
 Proof. vm_compute. reflexivity. Qed.
 Example ex_family_wf : wf_fsys ex_family_fs.
 Proof. repeat constructor; cbn; intuition discriminate. Qed.
+(* the glue theorems applied to the family: the roots are computed (not assumed) and the hypotheses hold *)
+Example ex_family_glue : exists bs r,
+  bases ex_family = Some bs /\ antichain bs /\ length bs = 2%nat /\
+  find_files_of (prune_real ex_family) ex_family ex_family_fs = Some r /\
+  NoDup (found_of r) /\ length (found_of r) = 3%nat.
+Proof.
+  destruct (find_files_of (prune_real ex_family) ex_family ex_family_fs) as [r|] eqn:E; [|vm_compute in E; discriminate E].
+  eexists. exists r. split; [exact ex_family_bases|]. split; [exact (C11_bases_antichain _ _ ex_family_bases)|].
+  split; [reflexivity|]. split; [reflexivity|].
+  split; [exact (C11_find_files_of_no_duplicates _ _ _ E ex_family_wf)|].
+  vm_compute in E. inversion E. reflexivity.
+Qed.
+(* the guards of the tree reading hold for the three include bases of the family *)
+Example ex_family_tree_guards : exists ps,
+  all_some (map base_alg (f_inc ex_family)) = Some ps /\ length ps = 3%nat /\
+  forall p, In p ps -> PathAlgRt.wfp p /\ PathAlgTrees.not_fsroot p.
+Proof.
+  eexists. split; [vm_compute; reflexivity|]. split; [reflexivity|].
+  intros p [<-|[<-|[<-|[]]]]; (split; [|intros H; discriminate H]).
+  - apply (base_alg_wf_rel (mkpglob 1 [STR "src"] [] TFile)); [vm_compute; reflexivity|discriminate|reflexivity|cbn; discriminate].
+  - apply (base_alg_wf_rel (mkpglob 1 [STR "src"; STR "sub"] [] TFile)); [vm_compute; reflexivity|discriminate|reflexivity|cbn; discriminate].
+  - apply (base_alg_wf_rel (mkpglob 1 [STR "src-gen"] [] TFile)); [vm_compute; reflexivity|discriminate|reflexivity|cbn; discriminate].
+Qed.
 Example ex_walk :
   found_of (find_files (prune_real ex_filter) (fmatch ex_filter) ex_starts) = [mkpath 1 [STR "src"; STR "a.c"] false] /\
   extra_of (find_files (prune_real ex_filter) (fmatch ex_filter) ex_starts) = [mkpath 1 [STR "src"; STR "a.h"] false] /\
